@@ -117,7 +117,7 @@ theorem corr_label (F : Final labels opt rid items visited g) (i : Nat) (hv : i 
     rw [hS] at this
     rcases List.mem_append.mp this with h | h
     · have := n1F_mem _ _ _ _ _ _ _ h; simp only [Prod.mk.injEq] at this; exact ⟨this.1.2, this.2⟩
-    · have := holdF_mem _ _ _ _ _ h; simp only [Prod.mk.injEq] at this; exact ⟨this.1.2, this.2⟩
+    · have := holdF_mem _ _ _ _ _ _ _ h; simp only [Prod.mk.injEq] at this; exact ⟨this.1.2, this.2⟩
   · intro hl
     refine ⟨lv, (hkeys lv (i+1)).mpr ?_⟩
     rw [hS, n1F_eq opt items lv i prev (.label id) hl (label_not_guaranteed id) (Or.inr (label_not_endFlow id))]
@@ -153,7 +153,7 @@ theorem corr_op (F : Final labels opt rid items visited g) (hguard : ctxGuard it
       rw [hS] at this
       rcases List.mem_append.mp this with h | h
       · have := n1F_mem _ _ _ _ _ _ _ h; simp only [Prod.mk.injEq] at this; exact ⟨this.1.2, this.2⟩
-      · have := holdF_mem _ _ _ _ _ h; simp only [Prod.mk.injEq] at this; exact ⟨this.1.2, this.2⟩
+      · have := holdF_mem _ _ _ _ _ _ _ h; simp only [Prod.mk.injEq] at this; exact ⟨this.1.2, this.2⟩
     · intro hl
       refine ⟨lv, (hkeys lv (i+1)).mpr ?_⟩
       have hnj : isJump o.name = false := by
